@@ -550,6 +550,42 @@ func Run(r *mon.Run) {
 			}
 		}
 	}
+	// 2e. messages beyond 64 KiB (up to 1 MiB) between small ones, delivered
+	// by readers that hand over as much as the caller's buffer takes (one
+	// chunk), in 32 KiB / 64 KiB / 100000-byte pieces, in 4 KiB pieces and in
+	// odd pieces: what follows a large message must not be lost in its read
+	bigSizes := []int{65535, 65536, 65537, 70000, 131072, 200000}
+	if r.Thorough() {
+		bigSizes = append(bigSizes, 98304, 262144, 300001, 1<<20)
+	}
+	for bi, big := range bigSizes {
+		for _, sq := range [][]int{{3, big, 5, 0, 17}, {big, 1, 2, 3}, {big, 300, big / 2, 300}, {5, big}, {big, big + 1, 7}} {
+			var msgs [][]byte
+			for _, n := range sq {
+				msgs = append(msgs, payload(g.rng, n))
+			}
+			msgs = nonNil(msgs)
+			st := protoStream(msgs)
+			piece := func(n int) []int {
+				var cs []int
+				for left := len(st); left > 0; left -= n {
+					cs = append(cs, n)
+				}
+				return cs
+			}
+			for ci, cuts := range [][]int{{len(st)}, piece(32768), piece(65536), piece(100000), piece(4096), piece(9973)} {
+				for _, carryCap := range []int{0, 512, 65536} {
+					if !r.Thorough() && (bi+ci+carryCap)%2 == 1 {
+						continue
+					}
+					g.run(&Case{Codec: "proto", Msgs: msgs, Stream: st, CapExtra: carryCap, Cuts: cuts, EOFWithData: ci%2 == 1, Limit: 4 << 20, Expect: "ok", Class: "large-message-then-more"})
+					if carryCap == 512 {
+						g.run(&Case{Codec: "proto", Msgs: msgs, Stream: st, Cuts: cuts, Limit: 4 << 20, Expect: "ok", Class: "large-message-then-more", Reuse: true})
+					}
+				}
+			}
+		}
+	}
 	// 2d. WriteNext on messages that live in one arena (marshalled back to
 	// back): the arena must be untouched and the output must be the
 	// reference framing
